@@ -159,6 +159,35 @@ def moves(n: int, tier: str, seed: int, pairs: bool = True) -> Dict[str, Any]:
         acc.violation(f"{FAM}:env.step:step-count-not-incremented", f"step_count {np.unique(sc)} after one step",
                       dict(kind="cube_move", n=n, via="env.step", flat=0))
 
+    # -- env.step on cubes of the environment's NATIVE dtype -------------------------------------------
+    # The all-distinct labellings above are int32; a real state holds colours 0..5 in the dtype `reset`
+    # produces (int8).  D = ceil(log6 N) native cubes whose colours are the base-6 digits of the sticker's
+    # position jointly identify every position, so the permutation applied to native states is recovered
+    # from D real steps per action and compared with the physical move.
+    native_dt = np.asarray(jax.jit(env.reset)(jax.random.PRNGKey(0))[0].cube).dtype
+    D = 1
+    while 6 ** D < N:
+        D += 1
+    digits = np.stack([(ident // 6 ** j) % 6 for j in range(D)]).reshape(D, 6, n, n).astype(native_dt)
+    s2n, _ = step_actions(make_states(digits), jnp.asarray(triples))
+    out_nat = np.asarray(s2n.cube)  # [D, A, 6, n, n]
+    acc.transitions += D * A
+    if out_nat.dtype != native_dt:
+        acc.violation(f"{FAM}:env.step:changes-shape-or-dtype", f"native {native_dt} cube comes back as {out_nat.dtype}",
+                      dict(kind="cube_move_native", n=n, flat=0))
+    src = sum(out_nat[j].reshape(A, N).astype(np.int64) * 6 ** j for j in range(D))  # [A, N]
+    for k in range(A):
+        if not np.array_equal(src[k], refP[k]):
+            nbad = int((src[k] != refP[k]).sum())
+            acc.violation(f"{FAM}:env.step:native-dtype-state-differs-from-physical-move",
+                          f"n={n} {describe(n, k)} on {native_dt} states (colours = base-6 digits of the position, {D} "
+                          f"cubes): {nbad} of {N} stickers land elsewhere than under the geometric layer rotation "
+                          f"although the int32 all-distinct labelling may agree",
+                          dict(kind="cube_move_native", n=n, flat=int(k), action=list(map(int, R.triple_of(n, k)))))
+        acc.count("native_dtype_moves_checked")
+    acc.facts["native_dtype"] = str(native_dt)
+    acc.facts["native_digit_cubes"] = D
+
     # -- group laws on the implementation's own permutations (no reference involved) -------------
     def laws(perms: np.ndarray, via: str) -> None:
         if perms.shape[0] != A:
@@ -604,6 +633,22 @@ def replay_case(rp: Dict[str, Any]) -> List[str]:
             flags(np.asarray(s.cube), ts)
             if int(s.step_count) != 1:
                 fails.append(f"{FAM}:env.step:step-count-not-incremented")
+    elif kind == "cube_move_native":
+        flat = int(rp["flat"])
+        env = make_env(n)
+        dt = np.asarray(env.reset(jax.random.PRNGKey(0))[0].cube).dtype
+        D = 1
+        while 6 ** D < N:
+            D += 1
+        src = np.zeros(N, np.int64)
+        for j in range(D):
+            cube = ((ident // 6 ** j) % 6).reshape(6, n, n).astype(dt)
+            s, _ = env.step(one_state(cube), jnp.asarray(R.triple_of(n, flat), jnp.int32))
+            if np.asarray(s.cube).dtype != dt:
+                fails.append(f"{FAM}:env.step:changes-shape-or-dtype")
+            src += np.asarray(s.cube).reshape(-1).astype(np.int64) * 6 ** j
+        if not np.array_equal(src, R.move_perm(n, *R.triple_of(n, flat))):
+            fails.append(f"{FAM}:env.step:native-dtype-state-differs-from-physical-move")
     elif kind == "cube_law":
         via, f, d = rp["via"], int(rp["face"]), int(rp["depth"])
         cw, ccw, half = (impl_move(via, R.flat_of(n, f, d, a), labs[0]).reshape(-1).astype(np.int64) for a in range(3))
